@@ -25,7 +25,7 @@ def plan(tier, seed):
         jobs.append({"name": "c14-inputs-%d" % k, "module": "vmon.jobs.c14_unit", "args": {"mode": "inputs", "spec": s}, "timeout": 600})
     cli_specs = [cases.tok("lsn", s=1, fs=1, via="geqdsk", tag="c14-cli-lsn", reverse_Bt=True, psi_divide_twopi=False, psi_core=None, nx_pf="nx_core" if False else 3)]
     if tier == "thorough":
-        cli_specs.append(cases.tok("cdn", s=-1, fs=1, via="geqdsk", tag="c14-cli-cdn", reverse_current=True, orthogonal=False))
+        cli_specs.append(cases.tok("cdn", s=-1, fs=1, via="geqdsk", tag="c14-cli-cdn", reverse_current=True, orth=False))
     for s in cli_specs:
         jobs.append({"name": "c14-cli-" + s["tag"], "module": "vmon.jobs.c14_unit", "args": {"mode": "cli_loop", "spec": s}, "timeout": 1800})
     # two processes: the same spec as two distinct cached cases (a nonce makes the keys differ)
